@@ -30,8 +30,8 @@ def run(ctx, rep):
     n3 = R.acknack_handler(b3, adder(rep, b3))
     rep.floor("R01d", n3, 4, "ACKNACK handler state updates")
     b4 = fx.fn("RtpsReaderProxy", "write_message_reliable")
-    n4 = R.requested_loop(b4, adder(rep, b4))
-    n5 = R.unsent_loop(b4, adder(rep, b4))
+    n4 = R.requested_loop(b4, adder(rep, b4), fx=fx)
+    n5 = R.unsent_loop(b4, adder(rep, b4), fx=fx)
     rep.floor("R01d-loops", n4 + n5, 2, "requested-changes and unsent-changes loops in write_message_reliable")
     b5 = fx.fn("DcpsDomainParticipant", "handle_heartbeat_submessage")
     ng, counts = R.heartbeat_handler(b5, adder(rep, b5))
